@@ -205,12 +205,17 @@ def cargo_build(crate: str, *, release: bool = False, timeout: int = 3000, bins:
     if release:
         cmd.append("--release")
     t0 = time.time()
-    p = subprocess.run(cmd, cwd=HARNESS, env=cargo_env(), stdout=subprocess.PIPE, stderr=subprocess.STDOUT,
+    env = cargo_env()
+    tdir = HARNESS / "target"
+    if os.environ.get("VERIF_TARGET_DIR"):      # development only: private target dir to avoid lock contention
+        tdir = Path(os.environ["VERIF_TARGET_DIR"])
+        env["CARGO_TARGET_DIR"] = str(tdir)
+    p = subprocess.run(cmd, cwd=HARNESS, env=env, stdout=subprocess.PIPE, stderr=subprocess.STDOUT,
                        text=True, timeout=timeout)
     if p.returncode != 0:
         raise ToolError(f"cargo build -p {crate} failed:\n{p.stdout[-6000:]}")
     log(f"[build] {crate} {time.time()-t0:.1f}s")
-    return HARNESS / "target" / ("release" if release else "debug")
+    return tdir / ("release" if release else "debug")
 
 
 def run_bin(binpath: Path, args: list[str] | None = None, *, input: str | None = None,
